@@ -134,6 +134,9 @@ func runFrameHist(r *ev.Run, prop string, thorough bool) {
 	}
 	v1Histories(r, prop, frames, [][]hOp{{{opJUNK, 1}, {opENC, 0}, {opSKIP, 3}, {opENC, 0}}}, capZero, false, false)
 	v1Histories(r, prop, frames, [][]hOp{{{opENC, 0}}}, -117, false, false)
+	// every registered body type with ITS OWN V1 (every leaf deviation of every body, mid-range list sizes included),
+	// wrapped in the frame: a fresh buffer, a small-capacity buffer and a buffer holding earlier bytes
+	frameBodyHistories(r, prop, frames, [][]hOp{{{opENC, 0}}, {{opJUNK, 1}, {opENC, 0}, {opENC, 0}}}, []int{capZero, 128})
 	r.Sample("sse.SseBinary key 33: [ENC(m0) ENC(m1) SKIP(3) ] cap class -1")
 	r.Sample("sample.RootPacket nil body: [JUNK(1) ENC(m1) ENC(m0)] cap class 4096")
 	r.Set("bound", map[string]any{"depth": depth, "capacity_classes": 10})
@@ -179,6 +182,8 @@ func runC06(r *ev.Run, thorough bool) {
 	parScenarios(r, "C06", scs)
 	// repeatability over the whole value space V1: the SAME object encoded several times into one buffer
 	v1Histories(r, "C06", bind.Types, [][]hOp{{{opJUNK, 0}, {opENC, 0}, {opENC, 0}, {opSKIP, 1}, {opENC, 0}}}, capZero, true, false)
+	// encodes that must fail, followed by valid ones: nothing of the failed attempt may leak into later output
+	afterFailedEncode(r, "C06")
 	r.Sample("szse.NewOrder nil-fill: [ENC(m0) ENC(m0) SKIP(3)] (encoder materialises the extension, second encode must give the same bytes)")
 	r.Set("bound", map[string]any{"depth": depth, "frame_depth": fd})
 }
@@ -305,7 +310,7 @@ func valenumHuge(frame *rm.Value) bool {
 func v1Histories(r *ev.Run, prop string, types []*rm.Type, seqs [][]hOp, capClass int, skipObj bool, canonical bool) {
 	parTypes(r, types, func(t *rm.Type, l *ev.Local) {
 		sc := &hScenario{Name: t.QName() + " v1", T: t, SkipObjectCheck: skipObj}
-		valenum.Enum(t, valenum.Opts{K: 1, Big: false, Canonical: canonical}, func(c *valenum.Case) bool {
+		valenum.Enum(t, valenum.Opts{K: 1, Big: true, Canonical: canonical}, func(c *valenum.Case) bool {
 			if _, err := rm.EncodeBytes(c.V); err != nil {
 				return true
 			}
@@ -326,5 +331,115 @@ func v1Histories(r *ev.Run, prop string, types []*rm.Type, seqs [][]hOp, capClas
 			}
 			return true
 		})
+	})
+}
+
+// frameBodyHistories: for every frame type and every registered key, every V1 value of the BODY type wrapped in the frame.
+func frameBodyHistories(r *ev.Run, prop string, frames []*rm.Type, seqs [][]hOp, caps []int) {
+	type job struct {
+		t   *rm.Type
+		key string
+	}
+	var jobs []job
+	for _, t := range frames {
+		for _, k := range dynTable(t).Order {
+			jobs = append(jobs, job{t, k})
+		}
+	}
+	ch := make(chan job)
+	var wg sync.WaitGroup
+	for i := 0; i < runtime.NumCPU(); i++ {
+		wg.Add(1)
+		go func() {
+			defer wg.Done()
+			l := ev.NewLocal()
+			for j := range ch {
+				t := j.t
+				bt := t.Proto.Type(dynTable(t).Entries[j.key])
+				sc := &hScenario{Name: t.QName() + " key " + j.key + " body-v1", T: t}
+				valenum.Enum(bt, valenum.Opts{K: 1, Big: true}, func(c *valenum.Case) bool {
+					fv := valenum.Stale(valenum.WithKey(t, j.key, "Z"), 4)
+					fv.Fields[t.DynField()] = c.V.Clone()
+					if _, err := rm.EncodeBytes(fv); err != nil {
+						return true
+					}
+					for ci, capClass := range caps {
+						for si, seq := range seqs {
+							if len(caps) == len(seqs) && ci != si {
+								continue // paired: sequence i runs in capacity class i
+							}
+							sc.Msgs = []*rm.Value{fv.Clone()}
+							f, steps, key := runHistory(sc, capClass, seq)
+							l.Evals++
+							l.Transitions += int64(steps)
+							l.Traces++
+							l.Keys[ev.H(fmt.Sprint(sc.Name, capClass, si)+c.V.String())] = struct{}{}
+							l.States[key] = struct{}{}
+							if f != nil && histRelevant[prop](f) {
+								v := histViolation(prop, sc, f, capClass, seq)
+								v.Detail = "body base " + c.Base + " dev {" + c.Desc + "}: " + v.Detail
+								r.Violate(v)
+								return !r.TooMany()
+							}
+						}
+					}
+					return true
+				})
+			}
+			r.Merge(l)
+		}()
+	}
+	for _, j := range jobs {
+		ch <- j
+	}
+	close(ch)
+	wg.Wait()
+}
+
+// afterFailedEncode: a message the library must refuse (a part too long for its prefix) is encoded first — into the
+// same buffer and, separately, into another buffer — and then a valid message: the valid message's bytes must be
+// exactly its reference encoding (nothing left over from the failed attempt, in the buffer or anywhere else).
+func afterFailedEncode(r *ev.Run, prop string) {
+	parTypes(r, bind.Types, func(t *rm.Type, l *ev.Local) {
+		good := valenum.Distinct(t)
+		sc := &hScenario{Name: t.QName() + " after-failed-encode", T: t, SkipObjectCheck: true}
+		try := func(bad *rm.Value, desc string) bool {
+			for _, seq := range [][]hOp{{{opENC, 0}, {opRESET, 0}, {opENC, 1}, {opENC, 1}}, {{opENC, 1}, {opENC, 0}, {opRESET, 0}, {opENC, 1}}} {
+				sc.Msgs = []*rm.Value{bad.Clone(), good.Clone()}
+				f, steps, key := runHistory(sc, capZero, seq)
+				l.Evals++
+				l.Transitions += int64(steps)
+				l.Traces++
+				l.Keys[ev.H(t.QName()+"afe"+desc+fmt.Sprint(seq))] = struct{}{}
+				l.States[key] = struct{}{}
+				if f != nil && histRelevant[prop](f) {
+					v := histViolation(prop, sc, f, capZero, seq)
+					v.Detail = "failing message {" + desc + "}: " + v.Detail
+					r.Violate(v)
+					return !r.TooMany()
+				}
+			}
+			return true
+		}
+		valenum.Enum(t, valenum.Opts{K: 1, Over: true, Big: true}, func(c *valenum.Case) bool {
+			if _, err := rm.EncodeBytes(c.V); err == nil {
+				return true
+			}
+			return try(c.V, c.Desc)
+		})
+		// frames: every body type's own over-long values wrapped in the frame
+		if t.DynField() >= 0 && dynTable(t).KeyKind != "text" {
+			for _, k := range dynTable(t).Order {
+				bt := t.Proto.Type(dynTable(t).Entries[k])
+				valenum.Enum(bt, valenum.Opts{K: 1, Over: true, Big: true}, func(c *valenum.Case) bool {
+					if _, err := rm.EncodeBytes(c.V); err == nil {
+						return true
+					}
+					fv := valenum.WithKey(t, k, "Z")
+					fv.Fields[t.DynField()] = c.V.Clone()
+					return try(fv, "key "+k+" body "+c.Desc)
+				})
+			}
+		}
 	})
 }
